@@ -31,8 +31,9 @@ let c5_parse_op name (a : args) : op option =
 
 let c5_check_names = [| ""; "trigger-time-changed-or-attributes-changed"; "triggered-outside-window";
   "removal-events"; "downtime-end-count"; "owned-downtime-removed-by-user"; "cleanup-of-expired";
-  "trigger-on-result"; "trigger-on-add"; "downtime-start-count"; "triggered-event-missing"; "downtime-depth"; "chain-not-propagated" |]
-let c5_finding_names = [| "none"; "unused"; "lost-start"; "start-at-end-instant" |]
+  "trigger-on-result"; "trigger-on-add"; "downtime-start-count"; "triggered-event-missing"; "downtime-depth"; "chain-not-propagated";
+  "changed-although-timer-not-due"; "cleanup-timer-not-armed-for-expiry" |]
+let c5_finding_names = [| "none"; "unused"; "lost-start"; "unused" |]
 
 let oracle_c05_case script trace =
   let kind = ref KHost in
@@ -41,6 +42,7 @@ let oracle_c05_case script trace =
   let has_cr = ref false in
   let last_st = ref 0 in
   let pre = ref [] in               (* reconstructed downtime records, creation order *)
+  let tm_pre = ref [] in            (* the observed clean-up timers after the previous operation *)
   let steps = ref [] in
   let lines = ref [] in
   let err = ref None in
@@ -54,9 +56,11 @@ let oracle_c05_case script trace =
     | Some (("obs" | "case" | "end"), _) -> ()
     | Some (name, a) ->
       now := !nowr;
-      (match c5_parse_op name a with
+      let parsed = if name = "dt_pause" then Some (OpPause (num a "p" 0 <> 0), XDtPause (z_of_int (num a "id" 0), num a "p" 0 <> 0))
+        else (match c5_parse_op name a with Some o -> Some (o, XOp o) | None -> None) in
+      (match parsed with
        | None -> ()
-       | Some o ->
+       | Some (o, xo) ->
          (match !tr with
           | [] -> fail (Printf.sprintf "step=%d missing-observation" li)
           | l :: rest ->
@@ -102,10 +106,19 @@ let oracle_c05_case script trace =
                         c5_accepted = (match o with OpResult _ -> accepted | _ -> true);
                         c5_op = o; c5_pre = !pre; c5_post = post; c5_outs = outs;
                         c5_depth = (match o with OpAckRead -> Some (z_of_int (geti "depth")) | _ -> None) } in
+              let tm_post = List.filter_map (fun tok ->
+                  if String.length tok > 3 && String.sub tok 0 3 = "tm=" then
+                    (match String.split_on_char ':' (String.sub tok 3 (String.length tok - 3)) with
+                     | [i; ar; due; pa] -> Some { tm_id = z_of_int (int_of_string i); tm_armed = (ar = "1");
+                                                  tm_paused = (pa = "1"); tm_due = z_of_int (int_of_string due) }
+                     | _ -> None)
+                  else None) t in
+              let s = { ct_base = s; ct_xop = xo; ct_tm_pre = !tm_pre; ct_tm_post = tm_post } in
+              tm_pre := tm_post;
               steps := s :: !steps;
               lines := (li, line) :: !lines;
               pre := post;
-              (match o with OpPause p -> paused := p | _ -> ());
+              (match xo with XOp (OpPause p) -> paused := p | _ -> ());
               (match o with OpResult _ -> if accepted then has_cr := true | _ -> ());
               last_st := geti "st"
             end))
@@ -114,7 +127,7 @@ let oracle_c05_case script trace =
   | Some m -> Some m
   | None ->
     let lines = Array.of_list (List.rev !lines) in
-    (match c5_oracle !kind (List.rev !steps) with
+    (match c5_toracle !kind (List.rev !steps) with
      | [] -> None
      | fails ->
        let descr ((idx, n), e) =
